@@ -70,6 +70,16 @@ def cases(tier, rng, boost=1):
         ma = [[10, 10, 20, 30, 20, 30][x] for x in mi]     # first-half and second-half microstates share macrostates, the late ones in another order
         yield _mk([mi], [ma], 1, False, src='corpus-long', kind='lump')
         yield _mk([mi], [ma], 2, True, src='corpus-long', kind='lump')
+    # metastable micro model (two basins, exchange probability ~1e-3): an iterative stationary vector stopped by its step size is wrong by step/(1 - lambda_2),
+    # which then exceeds the 1e-8 of the property
+    mi = []
+    for b_ in range(120):
+        base = 2 * (b_ % 2)
+        blk = [base, base, base + 1, base, base + 1, base + 1, base, base + 1]
+        mi += blk * (120 + (b_ * 5) % 7)
+    ma = [[10, 20, 20, 30][x] for x in mi]
+    yield _mk([mi], [ma], 1, False, src='corpus-long', kind='lump')
+    yield _mk([mi], [ma], 3, True, src='corpus-long', kind='lump')
     nmodels = {'quick': 150, 'thorough': 1500, 'search': 400}[tier] * boost
     for _ in range(nmodels):
         n = rng.randint(2, 7)
